@@ -260,7 +260,7 @@ Schedule(p, bad) ==
                 /\ rctx' = Append(rctx, FALSE)
                 /\ runs' = Append(runs, [t \in 1 .. nt |-> [begun |-> 0, outcome |-> "none", execAtBegin |-> FALSE, execAtEnd |-> FALSE, goneAtBegin |-> FALSE, goneAtEnd |-> FALSE]])
                 /\ stop' = Append(stop, [n |-> 0, at |-> 0, duringShut |-> FALSE, begunBefore |-> [t \in 1 .. nt |-> FALSE], openBefore |-> [t \in 1 .. nt |-> FALSE]])
-                /\ ack' = Append(ack, [n |-> 0, at |-> 0, wasStarted |-> FALSE, wasFinished |-> FALSE,
+                /\ ack' = Append(ack, [n |-> 0, req |-> 0, at |-> 0, wasStarted |-> FALSE, wasFinished |-> FALSE,
                                        okAtAck |-> [t \in 1 .. nt |-> FALSE], openAtAck |-> [t \in 1 .. nt |-> FALSE],
                                        failedAtAck |-> FALSE, stopBefore |-> FALSE])
                 /\ store' = Append(store, [present |-> FALSE])
@@ -286,7 +286,7 @@ CancelNotStarted(S, j) ==
 
 AckRec(j) ==
   IF ack[j].n > 0 THEN [ack[j] EXCEPT !.n = 2]
-  ELSE [n |-> 1, at |-> 0, wasStarted |-> job[j].started, wasFinished |-> job[j].completed \/ job[j].canceled,
+  ELSE [n |-> 1, req |-> 1, at |-> 0, wasStarted |-> job[j].started, wasFinished |-> job[j].completed \/ job[j].canceled,
         okAtAck |-> [t \in Tasks(j) |-> runs[j][t].begun > 0 /\ t \notin running[j] /\
                        (runs[j][t].outcome = "ok" \/ (runs[j][t].outcome = "fail" /\ Ver(j).tasks[t].allow))],
         openAtAck |-> [t \in Tasks(j) |-> t \in running[j]],
@@ -512,7 +512,7 @@ Rank(jb, j) == Cardinality({k \in 1 .. Len(jb) : jb[k].present /\ jb[k].p = jb[j
 
 ShouldRemove(jb, j) ==
   LET p == jb[j].p IN
-  IF ~Def(p) THEN TRUE
+  IF ~Def(p) THEN ~IsRunning(jb, j)     \* a job whose tasks still execute is kept until it is finished
   ELSE IF ~jb[j].started /\ ~jb[j].canceled THEN FALSE
   ELSE IF ~jb[j].completed /\ ~jb[j].canceled THEN FALSE
   ELSE IF CurDef(p).retPeriod > 0 /\ jb[j].age > CurDef(p).retPeriod THEN TRUE
